@@ -275,7 +275,8 @@ def scenario(ctx, rng, tmpdir):
             if bad or names2 - names1:
                 viol('C11.rm-eltorito/other-entries', 'rm_eltorito changed entries other than the catalog: removed %s added %s' % (bad[:3], list(names2 - names1)[:3]))
             for e in rep2.errs:
-                viol('C11.rm-eltorito/reader-%s' % e.split(':')[0], 'after rm_eltorito: %s' % e[:120])
+                if not e.startswith('unsorted-ecma'):     # ordering is C03's recorded finding, nothing to do with El Torito
+                    viol('C11.rm-eltorito/reader-%s' % e.split(':')[0], 'after rm_eltorito: %s' % e[:120])
             for code, detail in isoapi.check_allocs(rep2):
                 viol('C11.rm-eltorito/alloc-%s' % code, 'after rm_eltorito: %s' % detail)
         except Exception as e:  # noqa
